@@ -141,6 +141,39 @@ func checkStatement(r *core.Run, c stmtCase, prefix string, withLogs bool) {
 			}
 			r.Fail(cls, fmt.Sprintf("literal %q is still in the tree after Normalize+maskLiterals: %s [%s]", leaked, c.stmt, c.dialect))
 		}
+		// --- oracle 1b (fresh names): a placeholder put in place of a literal never carries the name of a bind
+		// variable that was already in the statement
+		existing := map[string]bool{}
+		orig.Walk(func(n *sqlast.Tree, _ []int) {
+			if ty, v, ok := n.SQLVal(); ok && ty == ValArg && len(v) > 1 {
+				existing[string(v[1:])] = true
+			}
+			if !n.IsAtom && n.Kind == "ListArg" && len(n.Kids) == 1 && len(n.Kids[0].Atom) > 2 {
+				existing[string(n.Kids[0].Atom[2:])] = true
+			}
+		})
+		var pair func(a, b *sqlast.Tree)
+		pair = func(a, b *sqlast.Tree) {
+			if a.IsAtom || b.IsAtom {
+				return
+			}
+			if ty, _, ok := a.SQLVal(); ok && IsLiteralType(ty) {
+				if ty2, v2, ok2 := b.SQLVal(); ok2 && ty2 == ValArg && len(v2) > 1 && existing[string(v2[1:])] {
+					r.Fail("placeholder-name-collision", fmt.Sprintf("literal replaced by %s, the name of a bind variable already present: %s [%s]", v2, c.stmt, c.dialect))
+				}
+				return
+			}
+			if a.Kind == "ValTuple" && b.Kind == "ListArg" && len(b.Kids) == 1 && len(b.Kids[0].Atom) > 2 && existing[string(b.Kids[0].Atom[2:])] {
+				r.Fail("placeholder-name-collision", fmt.Sprintf("IN list replaced by %s, the name of a list argument already present: %s [%s]", b.Kids[0].Atom, c.stmt, c.dialect))
+			}
+			if a.Kind != b.Kind || len(a.Kids) != len(b.Kids) {
+				return
+			}
+			for i := range a.Kids {
+				pair(a.Kids[i], b.Kids[i])
+			}
+		}
+		pair(orig, norm)
 		// --- oracle 2 (shape): placeholders stand exactly where literals stood
 		so := r.Do("C16.shape " + tree)
 		sn := r.Do("C16.shape " + out[3:])
@@ -222,7 +255,14 @@ func checkLog(r *core.Run, c stmtCase, cfg, level, format string, verbose bool) 
 					cls = "log-leak-unparseable:debug-tokenizer-verbose"
 				}
 			}
-			r.Fail(cls, fmt.Sprintf("literal %q of %q reaches the log (cfg=%s level=%s format=%s): %s", m, c.stmt, cfg, level, format, trunc(string(logged))))
+			entry := string(logged)
+			for _, l := range strings.Split(entry, "\n") {
+				if containsMarker([]byte(l), m) {
+					entry = l
+					break
+				}
+			}
+			r.Fail(cls, fmt.Sprintf("literal %q of %q reaches the log (cfg=%s level=%s format=%s): %s", m, c.stmt, cfg, level, format, trunc(entry)))
 			return
 		}
 	}
